@@ -127,6 +127,9 @@ func (d *doublyConnectedEdgeList) assignFaces() {
 				dfs(f)
 			}
 		}
+		if d.multiAreal[operand] {
+			d.assignFacesByDepth(operand)
+		}
 	})
 
 	// If we couldn't find any cycles, then we wouldn't have constructed any
@@ -137,6 +140,72 @@ func (d *doublyConnectedEdgeList) assignFaces() {
 			cycle: nil,
 			inSet: [2]bool{},
 		})
+	}
+}
+
+// hasMultipleArealMembers reports whether g is a GeometryCollection that holds
+// (possibly nested) more than one non-empty Polygon or MultiPolygon.
+func hasMultipleArealMembers(g Geometry) bool {
+	if !g.IsGeometryCollection() {
+		return false
+	}
+	var n int
+	g.MustAsGeometryCollection().walk(func(leaf Geometry) {
+		if (leaf.IsPolygon() || leaf.IsMultiPolygon()) && !leaf.IsEmpty() {
+			n++
+		}
+	})
+	return n > 1
+}
+
+// assignFacesByDepth recomputes the inSet label of every face for an operand
+// whose areal members may overlap each other. Flooding from the operand's ring
+// edges without ever crossing one from its interior side (as assignFaces does)
+// is only right when crossing a ring always leaves the operand. With
+// overlapping members it leaves a face outside the operand when the face is in
+// a hole of (or next to) one member but covered by another. Instead, the
+// number of members covering each face is propagated from the unbounded face
+// (which none cover): crossing an edge leaves the members whose rings border
+// the near side and enters those whose rings border the far side.
+func (d *doublyConnectedEdgeList) assignFacesByDepth(operand operand) {
+	// The DCEL is connected (via ghost edges), so each face is bounded by a
+	// single cycle and the unbounded face is the one whose cycle has the least
+	// (most negative) signed area.
+	var outer *faceRecord
+	var outerArea float64
+	for _, f := range d.faces {
+		var area float64
+		forEachEdgeInCycle(f.cycle, func(e *halfEdgeRecord) {
+			n := e.seq.Length()
+			for i := 0; i+1 < n; i++ {
+				area += e.seq.GetXY(i).Cross(e.seq.GetXY(i + 1))
+			}
+		})
+		if outer == nil || area < outerArea {
+			outer = f
+			outerArea = area
+		}
+	}
+	if outer == nil {
+		return
+	}
+
+	depth := map[*faceRecord]int{outer: 0}
+	stack := []*faceRecord{outer}
+	for len(stack) > 0 {
+		f := stack[len(stack)-1]
+		stack = stack[:len(stack)-1]
+		forEachEdgeInCycle(f.cycle, func(e *halfEdgeRecord) {
+			adj := e.twin.incident
+			if _, ok := depth[adj]; ok {
+				return
+			}
+			depth[adj] = depth[f] - e.srcFaceCount[operand] + e.twin.srcFaceCount[operand]
+			stack = append(stack, adj)
+		})
+	}
+	for _, f := range d.faces {
+		f.inSet[operand] = depth[f] > 0
 	}
 }
 
